@@ -31,9 +31,20 @@ def check_predicate(ctx):
     for meth, op, nargs in (('execute_rule', 'rule_operation', 4), ('execute_volume_rule', 'rule_volume_operation', 5)):
         f = ctx.fn('types:Rule.%s' % meth)
         where = ctx.loc('types', f)
+        # whether a rule fires is a function of its schedule, the time and the kind of pass - nothing a firing leaves behind: the rule
+        # objects belong to the model and serve every simulation of it, so the deciding method stores nothing in the rule
+        stores = [util.stmt_key(n_)[:60] for n_ in ast.walk(f) if isinstance(n_, (ast.Assign, ast.AugAssign))
+                  for t_ in (n_.targets if isinstance(n_, ast.Assign) else [n_.target])
+                  if isinstance(t_, (ast.Attribute, ast.Subscript)) and src(t_).split('.')[0].split('[')[0] == 'self']
+        ctx.ob('R9.1-firing-predicate', '%s/stateless' % meth, not stores, where,
+               'deciding whether a rule fires leaves nothing behind in the rule object (a second simulation of the model sees the same schedule)',
+               '; '.join(stores[:2]))
         ifs = [s for s in f.body if isinstance(s, ast.If)]
         problems = []
         if len(ifs) != 1 or ifs[0].orelse:
+            if stores:
+                ctx.note('Rule.%s: not a single guarded operation; the firing predicate was not analysed further' % meth)
+                continue
             raise AnalysisError('Rule.%s: expected a single guarded operation' % meth)
         a = [x.arg for x in f.args.args[1:]]
         tname, rname = a[-3], a[-1]
